@@ -94,6 +94,53 @@ def _c14_limit_case(seed):
     return []
 
 
+# scanned projects: the same directory tree under two renamings of its path components (identity follows component boundaries from the FILE SYSTEM on)
+SCAN_RHO_FREE = {"proj": "proj", "a": "alpha", "ab": "beta", "b": "gamma", "a_b": "delta", "core": "kern", "core_utils": "kern_tools", "x": "xi", "xy": "chi", "pyx": "omega"}
+SCAN_RHO_ADV = {"proj": "pyr", "a": "py", "ab": "pya", "b": "p", "a_b": "py_a", "core": "pyc", "core_utils": "pycx", "x": "apy", "xy": "pyi", "pyx": "pyx"}
+SCAN_RHO_ADV2 = {"proj": "init", "a": "__init__x", "ab": "ini", "b": "i", "a_b": "init_", "core": "txt", "core_utils": "placeholderx", "x": "proj", "xy": "projx", "pyx": "pyproj"}
+
+
+def _c14_scan_case(seed):
+    from .projects import random_tree, drop_shadowed
+    from .common import temp_project, scan
+    rng = random.Random(seed)
+    files = drop_shadowed(random_tree(rng, depth=3, with_init=0.8))
+    pyfiles = sorted(f for f in files if f.endswith(".py"))
+    pairs = [tuple(rng.sample(pyfiles, 2)) for _ in range(rng.randint(2, 6))] if len(pyfiles) >= 2 else []
+
+    def rn(component, rho):
+        stem, dot, ext = component.partition(".")
+        return component if stem in ("__init__", "placeholder") else rho[stem] + dot + ext
+
+    def build(rho):
+        def path(f):
+            return "/".join(rn(c, rho) if c else c for c in f.split("/"))
+
+        def mod(f):
+            rel = f[:-3]
+            return ".".join([rho["proj"]] + [rn(c, rho) for c in rel.split("/")])
+        out = {path(f): "" for f in files}
+        for a, b in pairs:
+            out[path(a)] += f"import {mod(b)}\n"
+        return out
+    res = {}
+    for nm, rho in (("free", SCAN_RHO_FREE), ("adv", SCAN_RHO_ADV), ("adv2", SCAN_RHO_ADV2)):
+        inv_c = {v: k for k, v in rho.items()}
+        with temp_project(build(rho), rho["proj"]) as root:
+            try:
+                mods, imps, hier = arch_snapshot(scan(root))
+            except Exception as e:
+                res[nm] = f"scan raised {type(e).__name__}: {e}"
+                continue
+        back = lambda m: ".".join(inv_c.get(c, "?" + c) if c != "__init__" else c for c in m.split("."))
+        res[nm] = (sorted(back(m) for m in mods), sorted((back(a), back(b)) for a, b in imps))
+    if not (res["free"] == res["adv"] == res["adv2"]):
+        d = {k: (v if isinstance(v, str) else [sorted(set(v[0]) ^ set(res["free"][0]))[:6], sorted(set(v[1]) ^ set(res["free"][1]))[:6]]) for k, v in res.items() if not isinstance(res["free"], str)}
+        return [dict(case="renaming-scanned-project", detail=f"modules / imports of the same directory tree differ under injective renamings of its path components (difference to the collision-free naming): {d or res}",
+                     input=dict(kind="c14-scan", seed=seed))]
+    return []
+
+
 def bounded_renaming(tier, seed):
     from .common import import_relations
     b = Bounded("C14.verdicts-and-messages-invariant-under-component-renaming",
@@ -115,10 +162,18 @@ def bounded_renaming(tier, seed):
         b.case()
         for v in res:
             b.violation(v["case"], v["detail"], v["input"])
+    # directory trees on disk, scanned under three namings of the path components (names beginning with 'py', equal to 'init', 'proj', ...)
+    for res in pmap(_c14_scan_case, [seed * 1013 + i for i in range(60 if tier == "quick" else 4000)]):
+        b.case()
+        for v in res:
+            b.violation(v["case"], v["detail"], v["input"])
     return b.result()
 
 
 def rerun_renaming(inp):
+    if inp.get("kind") == "c14-scan":
+        res = _c14_scan_case(inp["seed"])
+        return (not res), ("; ".join(v["detail"] for v in res) or "invariant under the renamings")
     if inp.get("kind") == "c14-limit":
         res = _c14_limit_case(inp["seed"])
         return (not res), ("; ".join(v["detail"] for v in res) or "invariant under the renamings")
